@@ -155,6 +155,16 @@ CHECKS = [
              "'nothing else changed'.",
      "design_ref": "DESIGN.md §5 C09", "note": ENV_NOTE,
      "technique": "bounded-exhaustive input enumeration (all small trees) through the real client and server"},
+    {"property_id": "C07", "level": "model_checking",
+     "text": "Function plane: the real build_list_mtime and parse_ls_date composed on a grid of 'now' values at every "
+             "month boundary, Feb 28/29, Mar 1, DST switch hours and mid-year of 2023-2025 (thorough -2028) x mtimes over "
+             "[now-400d, now+3d] at one-minute granularity around now / now-half-year / New Year / Mar 1 and a 67-minute "
+             "stride elsewhere, under TZ=UTC and a DST zone, against the local broken-down time truncated to minute or "
+             "day (one-day exemption at the half-year boundary). Wire level: every entry set over 3 names x file/dir with "
+             "rotating boundary sizes (0..2^40, sparse spy stat) and mtimes through MLSD, raw LIST, MLST, and stat() "
+             "falling back to MLSD and to LIST.",
+     "design_ref": "DESIGN.md §5 C07", "note": ENV_NOTE,
+     "technique": "bounded-exhaustive grid enumeration of formatter-parser composition + exhaustive wire cases with a spy backend"},
 ]
 
 _ALL = [f"C{i:02d}" for i in range(1, 21)]
